@@ -143,6 +143,8 @@ impl Builtins {
                         let mut vm =
                             VM::with_pointer(self.strict, op_pointer, base_path)
                                 .with_import_stack(import_stack.clone());
+                        // See FileBuilder::build: the output lock is per evaluation.
+                        env.borrow_mut().reset_out_lock_for_path(path.as_ref());
                         vm.run(env)?;
                         let result = Rc::new(vm.symbols_to_tuple(true));
                         env.borrow_mut()
